@@ -68,6 +68,7 @@ func TestC11(t *testing.T) {
 	}
 
 	addC11Race(t, e, cf)
+	addC11Rewrite(t, e, cf)
 
 	if err := cf.Write(e); err != nil {
 		t.Fatal(err)
@@ -208,6 +209,133 @@ func addC11Race(t *testing.T, e *Env, cf *CaseFile) {
 				cf.Add("("+fl+", "+r.CoqCase(conf)+")", fmt.Sprintf("race/%s/survivor=%v", fl, interesting),
 					map[string]any{"flavour": fl, "conf": conf, "scenario": "TTL write racing a cleanup cycle, then two quiet cycles",
 						"ops": r.Ops[fill:], "results_tail": r.Results[len(r.Results)-3:]}, true)
+			}
+		}
+	}
+}
+
+// addC11Rewrite: long-expired entries are replaced by fresh ones (TTL +1h) while a cleanup cycle is under way. Whichever
+// comes first for a key, the fresh entry has to be there afterwards ("fresh entries survive any number of cycles"), so
+// the history is listed as: Walk, the writes, the cycle, Walk — the window C11's predicate judges.
+func addC11Rewrite(t *testing.T, e *Env, cf *CaseFile) {
+	h := int64(time.Hour)
+	conf := BConf{TTL: -1, Jitter: -1, DelAfter: h, Name: "c"}
+	rounds := e.Pick(200, 2000)
+	fill, arms := 30, 24
+
+	for _, fl := range Flavours {
+		emitted, suspicious := 0, 0
+
+		for round := 0; round < rounds && suspicious < 3; round++ {
+			var r BRun
+
+			lost := 0
+
+			synctest.Test(t, func(t *testing.T) {
+				st := NewStats()
+				r.Stats, r.Hash = st, NewHashTable(fl)
+				b := NewBackend(fl, conf.Config(st))
+
+				defer b.Close()
+
+				ctx := context.Background()
+				now := time.Now().UnixNano()
+				old := cache.WithTTL(ctx, -30*time.Hour, false)
+				fresh := cache.WithTTL(ctx, time.Hour, false)
+				add := func(o BOp, res Res) {
+					if o.K != nil {
+						r.Hash.Note(o.K)
+					}
+
+					r.Ops, r.Results = append(r.Ops, o), append(r.Results, res)
+				}
+
+				for i := 0; i < fill; i++ {
+					k := []byte(fmt.Sprintf("forever-%d", i))
+					_ = b.Write(ctx, k, 1)
+					add(BOp{Kind: "write", K: k, V: 1, Now: now}, Res{Kind: "unit"})
+				}
+
+				keys := make([][]byte, arms)
+				for i := range keys {
+					keys[i] = []byte(fmt.Sprintf("old-%d-%d", round, i))
+					_ = b.Write(old, keys[i], 2)
+					add(BOp{Kind: "write", K: keys[i], V: 2, TTL: -30 * h, Now: now}, Res{Kind: "unit"})
+				}
+
+				w0 := b.Walk()
+
+				var (
+					wg    sync.WaitGroup
+					start = make(chan struct{})
+				)
+
+				wg.Add(arms + 1)
+
+				go func() {
+					defer wg.Done()
+					<-start
+
+					for i := 0; i < round%8; i++ {
+						runtime.Gosched()
+					}
+
+					b.Cleanup()
+				}()
+
+				for i := range keys {
+					go func(i int) {
+						defer wg.Done()
+						<-start
+
+						for j := 0; j < (i*7+round)%23; j++ { // spread the writes over the cycle
+							runtime.Gosched()
+						}
+
+						_ = b.Write(fresh, keys[i], int64(10+i))
+					}(i)
+				}
+
+				close(start)
+				wg.Wait()
+
+				w1 := b.Walk()
+
+				add(BOp{Kind: "walk"}, w0)
+
+				for i := range keys {
+					add(BOp{Kind: "write", K: keys[i], V: int64(10 + i), TTL: h, Now: now}, Res{Kind: "unit"})
+				}
+
+				add(BOp{Kind: "cleanup", Now: now, Removed: removedKeys(w0, w1)}, Res{Kind: "unit"})
+				add(BOp{Kind: "walk"}, w1)
+
+				have := map[string]int64{}
+				for _, w := range w1.Walk {
+					have[string(w.K)] = w.V
+				}
+
+				for i := range keys {
+					if have[string(keys[i])] != int64(10+i) {
+						lost++
+					}
+				}
+			})
+
+			cf.Count("rewrite/"+fl+"/rounds", 1)
+
+			if lost > 0 {
+				suspicious++
+			}
+
+			if lost > 0 || emitted < 1 {
+				if lost == 0 {
+					emitted++
+				}
+
+				cf.Add("("+fl+", "+r.CoqCase(conf)+")", fmt.Sprintf("rewrite/%s/lost=%v", fl, lost > 0),
+					map[string]any{"flavour": fl, "conf": conf, "scenario": fmt.Sprintf("%d long-expired entries replaced by fresh ones while a cleanup cycle runs", arms),
+						"lost": lost, "ops": r.Ops[fill:]}, true)
 			}
 		}
 	}
